@@ -292,7 +292,9 @@ impl RustPrimitive {
           .collect::<Vec<String>>();
         format!("vec![{}]", formatted_items.join(", "))
       }
-      serde_json::Value::Object(_) => serde_json::to_string(value).unwrap_or_else(|_| "...".to_string()),
+      serde_json::Value::Object(_) => {
+        serde_json::to_string(&sort_object_keys(value)).unwrap_or_else(|_| "...".to_string())
+      }
     }
   }
 
@@ -521,5 +523,19 @@ pub(crate) fn render_unsigned_integer(primitive: &RustPrimitive, value: u64) -> 
     RustPrimitive::U32 => format!("{}u32", format_number_with_underscores(&value)),
     RustPrimitive::U64 => format!("{}u64", format_number_with_underscores(&value)),
     _ => value.to_string(),
+  }
+}
+
+/// Returns a copy of `value` with the members of every object ordered by key,
+/// so that rendered text does not depend on how the source document ordered them.
+fn sort_object_keys(value: &serde_json::Value) -> serde_json::Value {
+  match value {
+    serde_json::Value::Object(map) => {
+      let mut entries = map.iter().collect::<Vec<_>>();
+      entries.sort_by(|a, b| a.0.cmp(b.0));
+      serde_json::Value::Object(entries.into_iter().map(|(k, v)| (k.clone(), sort_object_keys(v))).collect())
+    }
+    serde_json::Value::Array(items) => serde_json::Value::Array(items.iter().map(sort_object_keys).collect()),
+    other => other.clone(),
   }
 }
